@@ -8,6 +8,7 @@ CONSTANTS
   MaxSend = 6
   MaxAdv = 9
   CacheMax = 16
+  Extras = {}
   Asks = {FALSE, TRUE}
   Fam = "mixed"
   Depth = 0
